@@ -95,6 +95,23 @@ class Coop(object):
             _STATE["coop"] = None
 
 
+def chooser(r):
+    """a schedule strategy drawn from the case's PRNG: uniform choice at every point, or bursts (stay with the running
+    thread with probability 0.7 / 0.9) — bursts make 'A stops right here, B runs a whole section, A resumes' likely"""
+    stick = r.choice([0.0, 0.0, 0.7, 0.9])
+    last = [None]
+
+    def choose(runnable):
+        if last[0] is not None and stick and r.random() < stick:
+            for t in runnable:
+                if t.idx == last[0]:
+                    return t
+        t = r.choice(runnable)
+        last[0] = t.idx
+        return t
+    return choose
+
+
 def point(tag=None):
     """a scheduling point in harness-instrumented code; the tag (if any) is logged when the thread resumes"""
     c = _STATE["coop"]
